@@ -26,7 +26,9 @@ func init() {
 		Assumptions: []string{"kernel shadow = ground truth; the kernel's cookie is the definition of 'the same move'", "with more than 10 IN_MOVED_FROM between the two halves of one move the ten-slot ring legitimately forgets; the largest distance actually observed is reported and such histories are not generated sequentially"},
 		Batches:     func(t string) int { return map[string]int{"quick": 12, "thorough": 48}[t] },
 		RaceBatches: func(t string) int { return map[string]int{"quick": 1, "thorough": 8}[t] },
-		ChildTimeout: func(t string) time.Duration { return map[string]time.Duration{"quick": 10 * time.Minute, "thorough": 40 * time.Minute}[t] },
+		ChildTimeout: func(t string) time.Duration {
+			return map[string]time.Duration{"quick": 10 * time.Minute, "thorough": 40 * time.Minute}[t]
+		},
 		MustObserve: []string{"creates_with_old_name", "creates_without_old_name", "unmatched_moves_out", "concurrent_histories"},
 		Run:         runC11,
 	})
